@@ -141,7 +141,12 @@ def gen(rng, tier):
     # property promises that the text suffices to replay.
     ops = ([o for o in ops if o['op'] in ('bind', 'macro')] +
            [o for o in ops if o['op'] not in ('bind', 'macro')])
-  return {'specs': specs, 'ops': ops, 'static': static}
+  singleton = None
+  if rng.random() < 0.3:
+    singleton = {'key': rng.choice(['sk7', 'sk7/deep']),
+                 'ambient': rng.choice([[], [], ['amb']]),
+                 'bind_z': rng.random() < 0.5}
+  return {'specs': specs, 'ops': ops, 'static': static, 'singleton': singleton}
 
 
 class _Mode(__import__('enum').IntEnum):
@@ -405,6 +410,8 @@ def run(case):
                      'sig': [ID, 'C07.replay_text'],
                      'msg': 'replay reproduces a different operative text:\n'
                             '--- first\n%s\n--- replay\n%s' % (final, texts2[-1])})
+  if case.get('singleton') and not viol:
+    viol += _singleton_scenario(case['singleton'], lg)
   seen = set()
   uniq = []
   for x in viol:
@@ -432,5 +439,76 @@ def run(case):
   }
 
 
+def _singleton_scenario(sc, lg):
+  """A called gin.singleton is a called configurable like any other: it has a
+  section (its constructor was supplied by Gin), and the text replays."""
+  gin = world.gin
+  viol = []
+  got = {}
+
+  def setup():
+    world.reset()
+    got.clear()
+
+    def mk7(z=1):
+      got.setdefault('mk7', []).append(z)
+      return probes.Tok(len(got['mk7']), 'mk7')
+
+    def user7(obj=None, w='dw'):
+      got.setdefault('user7', []).append((getattr(obj, 'label', obj), w))
+      return obj
+    gin.configurable('mk7', module='mm.p')(mk7)
+    return gin.configurable('user7', module='mm.p')(user7)
+
+  def play(user):
+    with gin.config_scope(sc['ambient'] or None):
+      user()
+      user()
+    return gin.operative_config_str()
+  user = setup()
+  try:
+    gin.parse_config(['%s/gin.singleton.constructor = @mm.p.mk7' % sc['key'],
+                      'mm.p.user7.obj = @%s/gin.singleton()' % sc['key']] +
+                     (['%s/mm.p.mk7.z = 5' % sc['key']] if sc['bind_z'] else []))
+    text = play(user)
+  except Exception as e:  # pylint: disable=broad-except
+    return [{'oracle': 'C07.call_succeeds',
+             'sig': [ID, 'C07.call_succeeds', 'singleton', type(e).__name__],
+             'msg': 'singleton scenario %r raised %r' % (sc, e)}]
+  first = dict(got)
+  lg.add('singleton', sc, text)
+  user = setup()
+  try:
+    gin.parse_config(text)
+    problems = []
+    ctor = gin.query_parameter('%s/gin.singleton.constructor' % sc['key'])
+    if not getattr(ctor, 'selector', '').endswith('mk7'):
+      problems.append('constructor is %r' % (ctor,))
+    z = gin.query_parameter('%s/mm.p.mk7.z' % sc['key'])
+    if z != (5 if sc['bind_z'] else 1):
+      problems.append('mk7.z is %r' % (z,))
+    scope_prefix = ('/'.join(sc['ambient']) + '/') if sc['ambient'] else ''
+    gin.query_parameter('%smm.p.user7.obj' % scope_prefix)
+    text2 = play(user)
+    if dict(got) != first:
+      problems.append('replayed calls received %r, first %r' % (dict(got), first))
+    if text2 != text:
+      problems.append('replay text differs:\n%s' % text2)
+  except Exception as e:  # pylint: disable=broad-except
+    problems = ['%s: %s' % (type(e).__name__, probes.scrub(str(e))[:300])]
+  if problems:
+    viol.append({'oracle': 'C07.sections',
+                 'sig': [ID, 'C07.sections', 'called-singleton'],
+                 'msg': 'a configuration that uses %s/gin.singleton (called '
+                        'twice under %r): the operative text does not replay: '
+                        '%s\n--- operative text\n%s' %
+                        (sc['key'], sc['ambient'], problems, text)})
+  return viol
+
+
 def shrinks(case):
+  if case.get('singleton'):
+    c = copy.deepcopy(case)
+    c['singleton'] = None
+    yield c
   yield from shrink.tree_shrinks(case, {'ops'}, allow_empty=True)
